@@ -2042,7 +2042,7 @@ class Engine:
                 out.append((s0, 'raise', it.exc)); continue
             desc = self.iter_desc(it, s0)
             conc = self.concrete_iter(desc, s0)
-            if conc is not None and len(conc) <= 8 and not any(isinstance(src, PyMapped) for _, src in desc.sources):
+            if conc is not None and len(conc) <= getattr(self.contract, 'unroll_limit', 8) and not any(isinstance(src, PyMapped) for _, src in desc.sources):
                 out += self.unrolled_for(sm, conc, s0)
             else:
                 out += self.invariant_for(sm, desc, s0, ordinal)
